@@ -583,7 +583,13 @@ pub fn rule_focus(with_neg: bool) -> BoxedStrategy<RuleSpec> {
                         let cmp = if bits & 0x20 != 0 {
                             CondSpec::Cmp(OperandSpec::Cast("int", f.to_string()), "==", OperandSpec::Cast("int", g.to_string()))
                         } else {
-                            CondSpec::Cmp(OperandSpec::Cast("int", f.to_string()), ">", OperandSpec::Int(1))
+                            // the constant on either side, integer or float
+                            match bits & 0x18 {
+                                0x00 => CondSpec::Cmp(OperandSpec::Cast("int", f.to_string()), ">", OperandSpec::Int(1)),
+                                0x08 => CondSpec::Cmp(OperandSpec::Int(1), "<", OperandSpec::Cast("int", f.to_string())),
+                                0x10 => CondSpec::Cmp(OperandSpec::Cast("flt", f.to_string()), ">=", OperandSpec::Float(1.5)),
+                                _ => CondSpec::Cmp(OperandSpec::Float(1.5), "<=", OperandSpec::Cast("flt", f.to_string())),
+                            }
                         };
                         c = CondSpec::And(Box::new(c), Box::new(cmp));
                     }
